@@ -994,3 +994,27 @@ def r6_5_touching_merges(ck, P):
                     ck.ok(R, where, 'x1 == x2 merges')
                 else:
                     ck.violation(R, f.name, 'merge test strict on touching rectangles (%s)' % _w(u), '%s appends a rectangle whose x1 equals the current right edge instead of merging it: the band then holds two touching rectangles, a representation no other operation produces, and equal() fails against the same point set' % f.name, c.loc())
+
+
+def r5_5_copy_sets_count(ck, P):
+    """copy: the rectangle count travels with the rectangles on every path"""
+    R = ck.rule('C05-R5', 'in region copy every path that reaches the copy of the rectangle array has stored the source\'s rectangle count into the destination (also when the destination\'s array is large enough to be reused)', floor=2)
+    for u in units(P):
+        for f in u.functions.values():
+            if not (f.exported and f.name.endswith('_copy') and len(f.params) == 2):
+                continue
+            ck.saw(f)
+            mv = [c for c in f.calls() if (c.callee or '').startswith(('llvm.memmove', 'llvm.memcpy')) and not (f.last_field(f.path(c.a[0])) or '').endswith('.extents')]
+            if not mv:
+                ck.incomplete(R, '%s: no array copy found' % f.name); continue
+            first = f.blocks[0].insts[0]
+            def is_count_store(y):
+                if y.op != 'store':
+                    return False
+                p = f.path(y.a[1]); lf = f.last_field(p) or ''
+                return lf.endswith('.numRects') and any(r == ('arg', 0) for r in common.roots(f, y.a[1]))
+            esc = f.reach_avoiding(first, is_count_store, lambda y: y in mv) if not is_count_store(first) else None
+            if esc is None:
+                ck.ok(R, '%s (%s): count stored on every path to the array copy' % (f.name, _w(u)))
+            else:
+                ck.violation(R, f.name, 'rectangle count not copied (%s)' % _w(u), '%s can reach the copy of the rectangle array (%s) without storing the source\'s count into the destination: when the destination already has a large enough array its old count survives and stale rectangles stay in the copy' % (f.name, esc.loc()), esc.loc())
